@@ -60,7 +60,7 @@ Param Hist::genParam(const std::string& name, std::string* descr) {
 }
 
 bool Hist::opSetRate(bool analog) {
-    static const float prs[] = {50.f, 100.f, 120.f, 200.f, 29.97f, 59.94f, 60.f, 250.f, 1000.f};
+    static const float prs[] = {50.f, 100.f, 120.f, 200.f, 29.97f, 59.94f, 60.f, 250.f, 1000.f, 29.5f, 59.5f, 100.25f, 100.5f, 0.5f, 0.25f, 0.999f, 120.75f};
     float pr = float0(prev, "POINT", "RATE"); float r;
     if (!analog) { r = prs[rng.below(sizeof prs / sizeof prs[0])]; if (rng.chance(6)) r = 0.f; }
     else { float base = pr != 0.f ? pr : 100.f; r = base * (float)rng.range(1, (int)o.geti("maxsub", 6)); if (rng.chance(5)) r = 0.f; else if (rng.chance(7)) r = base * 0.4f; }   // 0.4: an analog rate below half the point rate (ratio rounds to 0)
@@ -101,6 +101,12 @@ bool Hist::opAddParam() {
         if (!m || !(upperS(group) == "POINT" || upperS(group) == "ANALOG")) customExisting.push_back(pnames[i]); }
     if (!customExisting.empty() && rng.chance(40)) { name = customExisting[rng.below(customExisting.size())]; replace = true; }
     else { std::vector<std::string> taken = pnames; for (size_t k = 0; k < sizeof managed / sizeof managed[0]; ++k) taken.push_back(managed[k]); name = freshName("Prm", taken); }
+    if (!replace && !customExisting.empty() && o.profile == "c09" && rng.chance(10)) {
+        // a name that differs from an existing one by case only: names are compared exactly, so this is a NEW parameter (appended)
+        std::string base = customExisting[rng.below(customExisting.size())], v = base; for (size_t i = 0; i < v.size(); ++i) v[i] = (char)(isupper((unsigned char)v[i]) ? tolower((unsigned char)v[i]) : toupper((unsigned char)v[i]));
+        bool exists = false; for (size_t i = 0; i < pnames.size(); ++i) if (pnames[i] == v) exists = true;
+        if (v != base && !exists) { name = v; caseVariantNames = true; }
+    }
     int bad = rng.chance(12) ? rng.range(1, 2) : 0;          // 1 unnamed, 2 untyped
     std::string d; Param p = genParam(bad == 1 ? "" : name, &d);
     if (bad == 2) { p = Param(name, "untyped"); d = "untyped"; }
@@ -142,7 +148,7 @@ bool Hist::opParamSet() {
     Outcome oc; size_t longest = 0;
     if (type == 0) { std::vector<int> v; for (size_t i = 0; i < n; ++i) v.push_back(rng.range(-9, 9)); VF_TRY(oc, p.set(v, dims)); }
     else if (type == 1) { std::vector<float> v; for (size_t i = 0; i < n; ++i) v.push_back((float)rng.range(-9, 9)); VF_TRY(oc, p.set(v, dims)); }
-    else { std::vector<std::string> v; for (size_t i = 0; i < n; ++i) { v.push_back(std::string((size_t)rng.range(0, 9), 'k')); longest = std::max(longest, v.back().size()); } VF_TRY(oc, p.set(v, dims)); }
+    else { std::vector<std::string> v; for (size_t i = 0; i < n; ++i) { v.push_back(std::string((size_t)rng.range(0, 9), 'k') + std::string((size_t)(rng.chance(25) ? rng.range(1, 6) : 0), ' ')); longest = std::max(longest, v.back().size()); } VF_TRY(oc, p.set(v, dims)); }   /* some values end in blanks: the leading dimension is the longest RAW length */
     std::ostringstream a; a << "type=" << (type == 0 ? "int" : type == 1 ? "float" : "string") << " n=" << n << " dims=" << dimsToStr(dims) << " expect=" << (expectOk ? "ok" : "range_error");
     log.ev("param_set_dims", a.str(), oc); bump("op:param_set_dims"); bump(expectOk ? "c09_set_consistent" : "c09_set_inconsistent");
     SParam after = takeParam(p);
